@@ -41,8 +41,10 @@ PROP = dict(
          "conversions (int_from_float, string_from_float, .str()) with local operands and `let` destinations in the generator and in a "
          "directed program; a directed program of instructions outside the optimizer's vocabulary (string hash, bit_xor, wrapping ops, "
          "channel + task, string bytes, intrinsic function values); hard probes with known output: a frame of 17000 locals (D90: offsets "
-         "beyond 15 bits are not fused) and a program with 65540 distinct int and float constants (expand_immediates really expands >= 1 "
-         "immediate); for the directed/intrinsics/probe programs the FINAL instruction list of the compiled program (names + resolved "
+         "beyond 15 bits are not fused) and a table-driven program with 65540 distinct int and 65540 distinct float constants followed by one use of "
+         "EACH of the 23 immediate-operand instructions whose literal is first mentioned after the 65536th constant of its type "
+         "(presence with a late constant is asserted from the dump), executed with operands built from the array length that "
+         "tell it from its neighbours (comparisons: below/equal/above; arithmetic: non-commutative values; power: bases 1, -1, 0); for the directed/intrinsics/probe programs the FINAL instruction list of the compiled program (names + resolved "
          "constants) is compared with Opt.expandImmediates of the optimized assembly, and the constant pool with first-occurrence order; "
          "distinct = distinct request; non-trivial = the optimized assembly differs from the input",
     nontrivial=lambda req, imp: imp != " ".join(w for w in req.split(" #")[0].split()[2:] if w[:2] in ("I:", "L:")),
